@@ -15,8 +15,9 @@ type stateOracle func(w *World, how string) *fw.Finding
 
 func histAlphabet(maxPerSetter int) []Op {
 	ops := SetterAlphabet(maxPerSetter)
+	ops = append(ops, SelfAlphabet()...)
 	ops = append(ops, ResolveAlphabet()...)
-	ops = append(ops, Op{Kind: "clone"})
+	ops = append(ops, Op{Kind: "clone"}, Op{Kind: "observe"})
 	return ops
 }
 
